@@ -224,6 +224,12 @@ DOCS = [
     b'{"a":[1,2',          # incomplete
     b'{"a":tru}',          # malformed
     b"[1,2]  x",
+] + [
+    # an escape / a \\u escape / a plain byte landing exactly where the token buffer has to grow (32, then 64 bytes),
+    # in a value and in a member name: the single byte appended there must be checked like every other append
+    (b'["' + b"a" * n + esc + b'b"]') for n in (29, 30, 31, 32, 61, 62, 63) for esc in (b"\\n", b"\\t", b"\\u00e9", b"\\\\")
+] + [
+    (b'{"' + b"k" * n + b'\\r":1}') for n in (30, 31, 32)
 ]
 
 SER_FLAGS = [0, 1, 2, 2 | 8, 16, 1 | 2, 32 | 2, 1 | 16]
